@@ -1067,7 +1067,7 @@ def inline_test_flags_function(fn) -> int:
         k = 0
         while k < len(stmts):
             a_ = stmts[k]
-            if isinstance(a_, (ast.Assign, ast.AnnAssign)) and getattr(a_, "value", None) is not None and attr_test(a_.value) and not isinstance(a_.value, (ast.Name, ast.Constant, ast.Attribute)):
+            if isinstance(a_, (ast.Assign, ast.AnnAssign)) and getattr(a_, "value", None) is not None and not getattr(a_, "_moved", False) and attr_test(a_.value) and not isinstance(a_.value, (ast.Name, ast.Constant, ast.Attribute)):
                 tg = a_.targets if isinstance(a_, ast.Assign) else [a_.target]
                 if len(tg) == 1 and isinstance(tg[0], ast.Name) and stores.get(tg[0].id, 0) == 1:
                     chains = {ast.unparse(x) for x in ast.walk(a_.value) if isinstance(x, (ast.Attribute, ast.Name)) and not isinstance(getattr(x, "_parent", None), ast.Attribute)}
@@ -1075,6 +1075,7 @@ def inline_test_flags_function(fn) -> int:
                     while j < len(stmts) and _harmless(stmts[j], chains | {tg[0].id}) and not any(isinstance(x, ast.Name) and x.id == tg[0].id for x in ast.walk(stmts[j])):
                         j += 1
                     if j > k + 1 and j < len(stmts) and isinstance(stmts[j], ast.If) and any(isinstance(x, ast.Name) and x.id == tg[0].id for x in ast.walk(stmts[j].test)):
+                        a_._moved = True  # type: ignore[attr-defined]
                         stmts.insert(j - 1, stmts.pop(k))
                         continue
             k += 1
